@@ -261,19 +261,19 @@ U("evts.unstash_real", src="units/evts_real.c", harness="h_unstash_real", plain=
 MODC = ABS + ["contracts/cb.contracts.h", "contracts/mod.contracts.h"]
 U("mod.stop", src="units/mod_unit.c", harness="h_stop", enforce="stop",
   replace=["manage_srcs", "m_mod_is", "reset_module", "optional_hook", "tell_system_pubsub_msg"], logctx="CORE",
-  props=["C01", "C19", "C03", "C04"], contract_files=MODC, native=False, timeout=300, min_obligations=30)
+  props=["C01", "C19", "C03", "C09", "C04"], contract_files=MODC, native=False, timeout=300, min_obligations=30)
 U("mod.start", src="units/mod_unit.c", harness="h_start", enforce="start",
   replace=["init_pubsub_fd", "manage_srcs", "optional_hook", "tell_system_pubsub_msg", "stop"], logctx="CORE",
   props=["C01", "C19", "C03", "C04"], contract_files=MODC, native=False, timeout=300, min_obligations=30)
 U("mod.optional_hook", src="units/mod_unit.c", harness="h_optional_hook", enforce="optional_hook",
   replace=["m_mem_ref", "m_mem_unref", "m_mod_is", "v_on_start", "v_on_stop", "v_on_eval"], logctx="CORE",
-  props=["C01", "C15", "C04"], contract_files=MODC, native=False, timeout=300, min_obligations=30)
+  props=["C01", "C15", "C03", "C04"], contract_files=MODC, native=False, timeout=300, min_obligations=30)
 U("mod.deregister", src="units/mod_unit.c", harness="h_mod_deregister", enforce="mod_deregister",
   replace=["m_ctx", "m_mod_is", "m_mem_ref", "m_mem_unref", "m_map_remove", "m_map_len", "stop", "fs_cleanup", "m_mem_unrefp", "m_ctx_deregister"], logctx="CORE",
   props=["C01", "C19", "C07", "C15", "C14", "C04"], contract_files=MODC, native=False, timeout=300, min_obligations=30)
 U("mod.evaluate", src="units/mod_unit.c", harness="h_evaluate_module", enforce="evaluate_module",
   replace=["m_mod_is", "fetch_ms", "optional_hook", "start", "m_bst_itr_new"], logctx="CORE",
-  props=["C01", "C04"], contract_files=MODC, native=False, timeout=300, min_obligations=30)
+  props=["C01", "C03", "C04"], contract_files=MODC, native=False, timeout=300, min_obligations=30)
 for _h, _fn, _callee in (("m_start", "m_mod_start", "start"), ("m_pause", "m_mod_pause", "stop"), ("m_resume", "m_mod_resume", "start"), ("m_stop", "m_mod_stop", "stop")):
     U("mod." + _h, src="units/mod_unit.c", harness="h_" + _h, enforce=_fn, replace=["m_ctx", "m_mod_is", "fetch_ms", _callee, "m_list_itr_new"], logctx="CORE",
       props=["C01", "C18", "C14", "C07", "C04"], contract_files=MODC, native=False, timeout=300, min_obligations=30, enforce_rec=True)
@@ -525,3 +525,37 @@ U("ctx.recv_oneshot_real", src="units/recv_real.c", harness="h_recv_oneshot_real
   unwind=34, props=["C03", "C09", "C04"], contract_files=[], native=False, timeout=300, min_obligations=20, cbmc_extra=["--no-propagation"])
 U("evts.set_batch_timeout", src="units/evts_unit.c", harness="h_set_batch_timeout", enforce="m_mod_set_batch_timeout", defines=["V_BT_UNIT"], logctx="CORE",
   replace=["m_ctx", "m_mod_is", "m_mod_src_deregister_tmr", "m_mod_src_register_tmr"], props=["C13", "C14", "C04"], contract_files=EVTS, native=False, timeout=200, min_obligations=20)
+SUBSC = ABS + ["contracts/cb.contracts.h", "contracts/subs.contracts.h"]
+U("ps.tell_subscribers", src="units/ps_unit.c", harness="h_tell_subscribers", enforce="tell_subscribers", loop_contracts=True, defines=["V_TELLSUBS_UNIT", "V_OWN_M_MOD_IS"], logctx="CORE",
+  replace=["m_map_itr_new", "m_map_itr_next", "m_map_itr_get_data", "m_mod_is", "fetch_sub", "tell_if"], props=["C02", "C04"], contract_files=SUBSC, native=False, timeout=300, min_obligations=30,
+  must_have=["invariant after step"])
+U("ps.fetch_sub", src="units/ps_unit.c", harness="h_fetch_sub", enforce="fetch_sub", loop_contracts=True, defines=["V_FETCHSUB_UNIT"], logctx="CORE",
+  replace=["m_map_get", "m_map_itr_new", "m_map_itr_next", "m_map_itr_get_data", "v_regexec"], props=["C02", "C04"], contract_files=SUBSC, native=False, timeout=900, min_obligations=30,
+  must_have=["invariant after step"])
+U("thpool.free", src="units/thpool_unit.c", harness="h_pool_free", enforce="m_thpool_free", defines=["V_POOL_FREE"], logctx="THPOOL",
+  replace=["wait_pool", "v_cond_destroy", "v_mutex_destroy", "m_queue_free", "m_list_free"], props=["C06", "C04"], contract_files=THP, native=False, timeout=300, min_obligations=20,
+  unwindset={"m_thpool_free_wrapped_for_contract_checking.0": 7})
+U("thpool.clear", src="units/thpool_unit.c", harness="h_pool_clear", enforce="m_thpool_clear", defines=["V_POOL_CLEAR"], logctx="THPOOL",
+  replace=["v_mutex_lock", "v_mutex_unlock", "m_queue_clear"], props=["C06", "C04"], contract_files=THP, native=False, timeout=300, min_obligations=20)
+
+_more("C02", "Recipient selection of a publish: tell_subscribers() (loop contract over an abstract module-table iterator, any number of modules) examines every module once, treats RUNNING and PAUSED as "
+      "eligible, looks a subscription up for exactly the eligible ones and tells exactly the eligible-and-subscribed ones once with the matched subscription; fetch_sub() (loop contract, any number of "
+      "subscriptions) answers 'subscribed' iff the exact topic is present or some pattern matches, taking the first match in table order.",
+      ["pipe capacity (kernel constant)", "regular-expression matching itself (regexec is a contract: 'matches at position k')",
+       "payload accounting for auto-free sends to != 1 recipients is a recorded known finding"])
+PROPS["C06"]["level_text"] += (" m_thpool_free(): a started pool is waited for (all queued tasks / only the tasks in progress, as asked) before the condition variable, the mutex, the task queue and the "
+                               "thread list are given up, each initialised stage is undone exactly once; m_thpool_clear() drops the pending tasks under the mutex.")
+PROPS["C06"]["not_decided"] = ["interleaving semantics beyond the lock-discipline argument; deadlock freedom / lost wake-ups (liveness)", "m_thpool_new()/add_threads() (creation) not under contract",
+                               "detached pools are a recorded known finding", "the running_tasks counter is updated outside the mutex (statistics only; not covered by an obligation)"]
+PROPS["C13"]["level_text"] += (" m_mod_set_batch_timeout(): the old batch timer is removed, the new one is an internal high-priority timer with exactly the configured period keyed by the batch "
+                               "record, time-only batching uses the sentinel size, and timeout 0 leaves no batching behind.")
+PROPS["C13"]["not_decided"] = ["that the kernel timer fires after the configured time"]
+PROPS["C03"]["level_text"] += (" One-shot sources (real-code bounded unit): removed from their module's registry under the registration key, once per event, the event still delivered. The two loop "
+                               "drivers are enforced: m_ctx_loop_events() returns only through loop_stop(), once, only when quit was requested or nothing runs; m_ctx_dispatch() performs exactly one of "
+                               "start / stop-and-return-the-code / non-blocking delivery per call.")
+PROPS["C03"]["not_decided"] = ["that epoll reports what is ready; loop termination", "sources destroyed by a stop/deregister in the same poll batch (dangling epoll data pointer)",
+                               "process_fd/tmr/sgn/path/pid/task/thresh (typed event filled from the kernel object) not under contract"]
+PROPS["C07"]["not_decided"] = ["ctx_new()/ctx_dtor() internals", "that m_map_iterate(ctx_destroy_mods) reaches every module (C05 bounded)"]
+PROPS["C08"]["level_text"] += (" recv_events() (real ctx.c, bounded batch): with a pill at any position exactly the messages queued before it are delivered, in order, then the recipient is stopped once, "
+                               "and nothing behind the pill is read; process_ps() takes exactly the head of the module's own pipe.")
+PROPS["C08"]["not_decided"] = ["pill handling for batches of more than 3 messages (bounded stand-in; the per-message step is the same)", "batching + poison pill interplay (C02 lets batched messages be discarded)"]
